@@ -166,6 +166,10 @@ WEIRD = ["", " ", "\x00", "1 +", "((((", ")", "x ==", "import os", "__import__('
          "# c", "yield x", "await x", "*x", "x := 1", "print(1)", "f(f)", "s.a.b", "d.k.k", "l[5]", "l[-1]", "d[l]", "d[d]", "l[d]", "x[x]",
          "1 in 1", "'a' in 1", "1 < 'a'", "None < None", "-None", "-'a'", "-l", "-d", "not not x", "- - 1", "~1", "x ** 2", "[1, *l]", "{**d}",
          "1 if 1 else", "True and", "true", "TRUE", "false", "0", "1", " true ", "null", "none", "x is null", "zz.a.b.c", "d['k']['j']"]
+# nesting deeper than the interpreter's recursion limit (1000) - and far deeper - in every recursive construct
+for _n in (990, 1200, 5000):
+    WEIRD += ["not " * _n + "x", "x" + ".a" * _n, "-" * _n + "1", "x" + "[0]" * _n, "x and " * _n + "x", "1 < " * _n + "2",
+              "x == " * _n + "1", "[" * _n + "]" * _n, "x if y else " * _n + "0"]
 
 
 def expr_job(job):
@@ -211,7 +215,7 @@ def expr_job(job):
             if len(samples) < 3 and kind == "value" and len(e) > 6:
                 samples.append({"expression": e, "context": cname, "result": kind})
     # callers: a malformed condition can skip a branch but cannot crash a stage
-    caller_evals, cv = callers(exprs[:: max(1, len(exprs) // 400)])
+    caller_evals, cv = callers([e for e in WEIRD if e in exprs] + exprs[:: max(1, len(exprs) // 400)])
     viols += cv
     return pack(job, evals + caller_evals, values, viols, samples, "e5", extra={"expression_values": values, "expression_errors": errors,
                                                                       "caller_evaluations": caller_evals})
